@@ -31,6 +31,9 @@ type dfGraph struct {
 	Procs  []dfProc `json:"procs"`
 	ExtIn  int      `json:"ext_in"`
 	ExtOut []string `json:"ext_out"` // producer endpoint feeding each external output
+	// DomainOf (optional): processor i is an instance of domain DomainOf[i]; Procs[i] still describes processor i,
+	// processors of one domain must have the same shape (they then run the same program)
+	DomainOf []int `json:"domain_of,omitempty"`
 }
 
 func (g dfGraph) fanout() int {
@@ -86,6 +89,25 @@ func (g dfGraph) system() bmsys.System {
 	}
 	for k, e := range g.ExtOut {
 		sys.Bonds = append(sys.Bonds, [2]string{"o" + strconv.Itoa(k), e})
+	}
+	if g.DomainOf != nil {
+		// keep one Proc per domain (the first processor of each domain), in domain order
+		nd := 0
+		for _, d := range g.DomainOf {
+			if d+1 > nd {
+				nd = d + 1
+			}
+		}
+		doms := make([]bmsys.Proc, nd)
+		seen := make([]bool, nd)
+		for i, d := range g.DomainOf {
+			if !seen[d] {
+				seen[d] = true
+				doms[d] = sys.Procs[i]
+			}
+		}
+		sys.Procs = doms
+		sys.DomainOf = g.DomainOf
 	}
 	return sys
 }
@@ -518,6 +540,10 @@ func families(thorough bool) []dfGraph {
 		{Name: "three-outputs", Procs: []dfProc{{In: []string{"i0"}, Out: 3}}, ExtIn: 1, ExtOut: []string{"p0o0", "p0o1", "p0o2"}},
 		// a join whose two inputs come from other PROCESSORS (their valid lines fall when those processors move on,
 		// not when the environment decides)
+		// processors SHARING a domain: p0 and p1 are instances of domain 0 (one input, one output), p2 of domain 1
+		// (one input, two outputs); and the same with the domains numbered the other way round
+		{Name: "pipe3-shared-domain", Procs: []dfProc{{In: []string{"i0"}, Out: 1}, {In: []string{"p0o0"}, Out: 1}, {In: []string{"p1o0"}, Out: 2}}, ExtIn: 1, ExtOut: []string{"p2o0", "p2o1"}, DomainOf: []int{0, 0, 1}},
+		{Name: "pipe3-shared-domain-permuted", Procs: []dfProc{{In: []string{"i0"}, Out: 2}, {In: []string{"p0o0"}, Out: 1}, {In: []string{"p1o0"}, Out: 1}}, ExtIn: 1, ExtOut: []string{"p2o0", "p0o1"}, DomainOf: []int{1, 0, 0}},
 		{Name: "join-of-pipes", Procs: []dfProc{{In: []string{"i0"}, Out: 1}, {In: []string{"i1"}, Out: 1}, {In: []string{"p0o0", "p1o0"}, Out: 1}}, ExtIn: 2, ExtOut: []string{"p2o0"}},
 	}
 	if thorough {
